@@ -254,6 +254,18 @@ class EffectAnalysis:
             for kw in c.keywords:
                 if kw.arg == "out":
                     self.report(c, self.alias(kw.value, st), "out=")
+            # a repository callee that writes into one of its parameters writes into whatever the caller bound to it
+            if cal.kind == "repo" and cal.func is not None and self.depth < 2 and cal.func is not self.f:
+                wp = writes_params(self.model, cal.func, self.depth + 1)
+                if wp:
+                    try:
+                        b = self.model.bind(c, cal.func)
+                    except Exception:  # noqa: BLE001
+                        b = {}
+                    for pn in wp:
+                        a = b.get(pn)
+                        if isinstance(a, ast.AST):
+                            self.report(c, self.alias(a, st), f"call:{cal.func.name} writes its `{pn}`")
 
     def run_block(self, stmts, st):
         for s in stmts:
@@ -427,6 +439,21 @@ def returns_alias_params(model, g: FunctionInfo, depth=1):
     try:
         ea = EffectAnalysis(model, g, self_is_owner=False, depth=depth)
         ps = {_root(a)[1] for a in ea.returned if _root(a)[0] == "param"}
+    except Exception:  # noqa: BLE001
+        ps = set()
+    cache[g.qualname] = ps
+    return ps
+
+
+def writes_params(model, g: FunctionInfo, depth=1):
+    """Names of the parameters of g that g (or, to depth 2, its repository callees) may write into."""
+    cache = model.__dict__.setdefault("_writes_params", {})
+    if g.qualname in cache:
+        return cache[g.qualname]
+    cache[g.qualname] = set()
+    try:
+        ea = EffectAnalysis(model, g, self_is_owner=False, depth=depth)
+        ps = {e.target.split(":", 1)[1] for e in ea.effects if e.target.startswith("param:")}
     except Exception:  # noqa: BLE001
         ps = set()
     cache[g.qualname] = ps
